@@ -103,16 +103,32 @@ CfgPositions == {"root.all", "root.dir", "root.filename", "root.pkgname", "root.
                  "pkg.config.recursive", "pkg.config.exclude-subpkg-regex", "pkg.config.replace-type", "pkg.interfaces",
                  "iface", "iface.config", "iface.config.structname", "iface.config.template-data", "iface.configs",
                  "entry", "entry.structname", "entry.force-file-write", "entry.template-data"}
+                \cup \* every key of the built-in templates' schema at every level
+                {l \o ".template-data." \o k : l \in {"root", "pkg.config", "iface.config", "entry"},
+                                                k \in {"unroll-variadic", "boilerplate-file", "mock-build-tags"}}
 ValueKinds == {"null", "string", "empty-string", "int", "float", "bool", "empty-list", "list-of-strings", "list-of-null",
                "empty-map", "map", "nested-map", "templated-string"}
 FuzzAll == {[kind |-> "cfgfuzz", decls |-> <<"iface">>, select |-> "all", spelling |-> "plain", layout |-> "sep", shape |-> "-", ctx |-> "-",
              pos |-> p, val |-> v] : p \in CfgPositions, v \in ValueKinds}
-CfgFuzzWorlds == IF NFuzz = 0 THEN FuzzAll ELSE RandomSubset(NFuzz, FuzzAll)
+FuzzWorld(p, v) == [kind |-> "cfgfuzz", decls |-> <<"iface">>, select |-> "all", spelling |-> "plain", layout |-> "sep", shape |-> "-", ctx |-> "-",
+                    pos |-> p, val |-> v]
+\* quick: every position with one value kind drawn at random, and every value kind at NFuzz positions drawn at random
+CfgFuzzWorlds == IF NFuzz = 0 THEN FuzzAll
+                 ELSE {FuzzWorld(p, RandomElement(ValueKinds)) : p \in CfgPositions}
+                      \cup UNION {{FuzzWorld(p, v) : p \in RandomSubset(NFuzz, CfgPositions)} : v \in ValueKinds}
 \* the configuration FILE as text: not YAML at all, YAML of the wrong shape, odd but legal encodings
 CfgTextShapes == {"tabs-indent", "duplicate-keys", "empty-file", "only-comment", "garbage", "list-at-top", "scalar-at-top", "bom",
                   "crlf", "undefined-alias", "multi-document", "deep-nesting", "nul-byte", "huge-scalar", "recursive-alias"}
 CfgTextWorlds == {[kind |-> "cfgtext", decls |-> <<"iface">>, select |-> "all", spelling |-> "plain", layout |-> "sep", shape |-> s, ctx |-> "-"] :
                     s \in CfgTextShapes}
+\* the environment (MOCKERY_<PARAM> is a documented configuration source; config.go:176-197 converts bool look-alikes)
+EnvKeys == {"ALL", "DIR", "FORCE_FILE_WRITE", "RECURSIVE", "PACKAGES", "TEMPLATE_DATA", "LOG_LEVEL", "CONFIG", "EXCLUDE_SUBPKG_REGEX",
+            "REQUIRE_TEMPLATE_SCHEMA_EXISTS", "FORMATTER", "NO_SUCH_PARAMETER"}
+EnvValues == {"empty", "true", "TRUE", "False", "maybe", "number", "json-map", "list", "spaces", "templated"}
+EnvAll == {[kind |-> "envfuzz", decls |-> <<"iface">>, select |-> "all", spelling |-> "plain", layout |-> "sep", shape |-> "-", ctx |-> "-",
+            pos |-> k, val |-> v] : k \in EnvKeys, v \in EnvValues}
+EnvWorlds == IF NFuzz = 0 THEN EnvAll ELSE {[kind |-> "envfuzz", decls |-> <<"iface">>, select |-> "all", spelling |-> "plain", layout |-> "sep",
+                                             shape |-> "-", ctx |-> "-", pos |-> k, val |-> RandomElement(EnvValues)] : k \in EnvKeys}
 \* the command line
 CliShapes == {"config-missing", "config-is-dir", "unknown-flag", "no-config-anywhere", "log-level-bogus", "extra-positional-arg",
               "config-flag-empty", "config-unreadable-yaml-dir-entry"}
@@ -127,7 +143,7 @@ NestedGoModWorlds == {[kind |-> "gomod-nested", decls |-> <<"iface">>, select |-
                         s \in NoModuleShapes \cup WithModuleShapes}
 RootNoModuleWorlds == {[kind |-> "gomod-root-nomodule", decls |-> <<"iface">>, select |-> "all", spelling |-> "plain", layout |-> "sep", shape |-> s, ctx |-> "-"] :
                          s \in {"empty", "comment-only", "go-only"}}
-Worlds == CfgFuzzWorlds \cup CfgTextWorlds \cup CliWorlds \cup ManyWorlds \cup NestedGoModWorlds \cup RootNoModuleWorlds \cup DeclWorlds \cup RandomDeclWorlds \cup GoModWorlds \cup PkgShapeWorlds \cup CfgShapeWorlds
+Worlds == EnvWorlds \cup CfgFuzzWorlds \cup CfgTextWorlds \cup CliWorlds \cup ManyWorlds \cup NestedGoModWorlds \cup RootNoModuleWorlds \cup DeclWorlds \cup RandomDeclWorlds \cup GoModWorlds \cup PkgShapeWorlds \cup CfgShapeWorlds
 
 \* CONTRACT: a valid world succeeds, and every must-declaration is mocked (1-based positions in decls)
 MustPositions(wd) == IF wd.select = "none" THEN {} ELSE {i \in 1..Len(wd.decls) : wd.decls[i] \in MustKinds}
@@ -135,7 +151,7 @@ MustPositions(wd) == IF wd.select = "none" THEN {} ELSE {i \in 1..Len(wd.decls) 
 \* never a crash; with one (wherever it stands in the file) the run succeeds
 PathUndeterminable(wd) == \/ wd.kind = "gomod-nested" /\ wd.shape \in NoModuleShapes
                           \/ wd.kind = "gomod-root-nomodule"
-ExitOpen(wd) == wd.kind \in {"cfgfuzz", "cfgtext"} \/ (wd.kind = "cli" /\ wd.shape \notin CliMustFail)
+ExitOpen(wd) == wd.kind \in {"cfgfuzz", "cfgtext", "envfuzz"} \/ (wd.kind = "cli" /\ wd.shape \notin CliMustFail)
 Expectation(wd) == [exit |-> IF ExitOpen(wd) THEN "any"
                              ELSE IF PathUndeterminable(wd) \/ wd.kind = "cli" THEN "nonzero" ELSE "zero", panic |-> FALSE,
                     must |-> IF PathUndeterminable(wd) \/ ExitOpen(wd) \/ wd.kind = "cli" THEN {} ELSE MustPositions(wd),
